@@ -55,6 +55,9 @@ FALSY = [None, 0, False, "", []]
 ODD = [1.5, -2.25, -3, "text", "None", "0", [1, 2], [[1], [2, None]], True, 2 ** 40, "a b: c"]
 HOWS = ["update", "setattr", "setitem", "sub_update"]
 SUBS = ["list", "tuple", "copy", "fresh"]
+PROTOS = ["len0", "len3", "bool_false", "bool_true", "len0_bool_true", "len3_bool_false", "iter_len0", "eq_name", "eq_never", "eq_always"]
+FALSY_PROTOS = ("len0", "bool_false", "len3_bool_false", "iter_len0")
+HOLES = ["none", "elist", "etuple"]
 PROBE_PKG = ["vcheck", "c20_probes"]
 
 
@@ -124,6 +127,53 @@ def nestable(pairs) -> bool:
     """can the pairs be written as ONE nested dict (no path strictly below another one)"""
     ps = [p for p, _ in pairs]
     return not any(strict_conflict(a, b) for i, a in enumerate(ps) for b in ps[i + 1:])
+
+
+def machine_tree(ids, col, states, transitions):
+    """forest node for a real `Machine(col, states)`: machine -> states -> transition set -> transitions.
+    states = [[state id, transient?]], transitions = [[from id, to id]]"""
+    def nid():
+        ids[0] += 1
+        return ids[0] - 1
+    sname = {sid: ("transient_state." if tr else "state.") + sid for sid, tr in states}
+    m = {"id": nid(), "n": f"machine.{col}", "d": [], "c": [], "lib": ["machine", col]}
+    for sid, tr in states:
+        ts = {"id": nid(), "n": f"transition_set.{sid}", "d": [], "c": [], "lib": ["tset", sid]}
+        for a, b in transitions:
+            if a == sid:
+                ts["c"].append({"id": nid(), "n": f"transition.'{sname[a]}'.'{sname[b]}'", "d": [], "c": [], "lib": ["transition", a, b]})
+        m["c"].append({"id": nid(), "n": sname[sid], "d": [], "c": [ts], "lib": ["state", sid, tr]})
+    return m
+
+
+def falsy(t) -> bool:
+    """is the component's truth value False (from the case alone)"""
+    if t.get("lib"):
+        return t["lib"][0] == "tset" and not t["c"]            # TransitionSet.__len__ == number of transitions
+    return t.get("proto", "plain") in FALSY_PROTOS
+
+
+def forced_outcomes(case):
+    """what None / [] / () among the supplied components do on the code as it is (decided by experiment, see report):
+    per stage either None (no effect) or the outcome the stage must have.
+      * anything that is not a Component in the `components=` LIST -> the constructor's own check crashes: AttributeError
+      * None anywhere else (add_components sequence, nested group, sub_components) -> _flatten raises TypeError, before
+        anything of that call is registered;   [] and () there are empty groups: ignored"""
+    out = []
+    pos = 0
+    stages = [case["n_spec"] + case["batches"][0]] + case["batches"][1:]
+    tops = [case.get("ctor_holes") or []] + [a.get("holes") or [] for a in case["adds"]]
+    for i, k in enumerate(stages):
+        trees = case["forest"][pos:pos + k]
+        pos += k
+        nested_none = any(kind == "none" for t in preorder(trees) for _, kind in (t.get("holes") or []))
+        if i == 0 and tops[0] and case["spec_via"] not in ("cdict", "clct"):
+            out.append("other:AttributeError")
+        elif nested_none or any(kind == "none" for _, kind in tops[i]) or has_gen(trees):
+            out.append("other:TypeError")
+        else:
+            out.append(None)
+    return out
 
 
 def classify(e) -> str:
@@ -321,9 +371,10 @@ def _run_single(case):
     from .. import c20_probes as cp
 
     probes = case["probes"]
-    flat_names = [t["n"] for t in preorder(case["forest"])]
+    flat_nodes = preorder(case["forest"])
+    deleter = flat_nodes[-1]["n"] if (case.get("delete") and flat_nodes and not flat_nodes[-1].get("lib")) else None
     cp.reset(specs=_specs(case["forest"]), probes=probes, attempts=case["attempts"], read=_read, write=_write, delete_fn=_delete,
-             delete=case.get("delete"), deleter=flat_names[-1] if (case.get("delete") and flat_names) else None,
+             delete=case.get("delete"), deleter=deleter,
              opt_manager=case["plugins"].get("opt") or {})
     LOG = cp.STATE["log"]
     obs = {"stages": [], "pre": [], "setup": None, "values": None, "post": [], "late_add": None, "setup_twice": None}
@@ -363,6 +414,8 @@ def _run_single(case):
             comps = LayeredConfigTree(block)
         else:
             comps = [cp.build(t) for t in forest[n_spec:n_spec + case["batches"][0]]]
+            if case.get("ctor_holes"):
+                comps = cp.with_holes(comps, case["ctor_holes"])
             if not comps and case.get("no_list"):
                 comps = None
         plug_arg = plug if (plug and case["plugins"].get("via") != "ms") else None
@@ -390,6 +443,8 @@ def _run_single(case):
         pos += k
         if how.get("group") and len(objs) >= 2:          # nested list / tuple inside the supplied sequence
             objs = objs[:-2] + [[objs[-2], (objs[-1],)]]
+        if how.get("holes"):
+            objs = cp.with_holes(objs, how["holes"])
         arg = tuple(objs) if how.get("container") == "tuple" else objs
         try:
             sim.add_components(arg)
@@ -497,6 +552,7 @@ def fill(case):
     c.setdefault("spec_via", None)
     c.setdefault("adds", [{"container": "list", "group": False}] * (len(c["batches"]) - 1))
     c.setdefault("home", None)
+    c.setdefault("ctor_holes", [])
     c.setdefault("plugins", {"clock": "datetime", "opt": None})
     c.setdefault("post_handle", "sim")
     c.setdefault("delete", None)
@@ -529,7 +585,8 @@ class C20(Prop):
 
     # ------------------------------------------------------------------ generation
     def _tree(self, rng, d, names, ids, budget):
-        n = {"id": ids[0], "n": names.pop(), "d": [], "c": [], "sub": rng.choice(SUBS), "defs": rng.choice(["property", "class_attr"])}
+        n = {"id": ids[0], "n": names.pop(), "d": [], "c": [], "sub": rng.choice(SUBS), "defs": rng.choice(["property", "class_attr"]),
+             "proto": rng.choice(PROTOS) if rng.random() < self._proto_rate else "plain"}
         ids[0] += 1
         budget[0] -= 1
         if d < 4:
@@ -552,19 +609,42 @@ class C20(Prop):
         case = self._gen(rng, allow_before=True)
         return case
 
+    _proto_rate = 0.3
+
     def _gen(self, rng, allow_before, like=None):
         names = [f"c{k}" for k in range(24)]
         rng.shuffle(names)
+        self._proto_rate = rng.choice([0.0, 0.2, 0.5, 1.0])
         ids, budget = [0], [rng.choice([1, 3, 6, 10, 16])]
         forest = []
         for _ in range(rng.choice([0, 1, 1, 2, 2, 3, 4, 5, 6])):
             if budget[0] <= 0:
                 break
             forest.append(self._tree(rng, 1, names, ids, budget))
+        if like is None and rng.random() < 0.22:                 # real library components: state machines (the transition set
+            used_states = []                                     # of every terminal state is an EMPTY container, hence falsy)
+            for k in range(rng.choice([1, 1, 2])):
+                pool_ids = ["x", "y", "z", "w", "v", "u"]
+                fresh_ids = [i for i in pool_ids if i not in used_states] or pool_ids
+                sids = rng.sample(fresh_ids, min(len(fresh_ids), rng.randint(1, 3)))
+                if used_states and rng.random() < 0.25:
+                    sids[0] = rng.choice(used_states)            # two machines share a state id: duplicate names
+                used_states += sids
+                states = [[sid, rng.random() < 0.25] for sid in sids]
+                pairs = [[a, b] for a in sids for b in sids if a != b]
+                rng.shuffle(pairs)
+                trans = pairs[:rng.randint(0, min(3, len(pairs)))]
+                m = machine_tree(ids, f"m{k}" if rng.random() < 0.9 else "m0", states, trans)
+                hosts = [t for t in preorder(forest) if not t.get("lib")]
+                if hosts and rng.random() < 0.4:
+                    rng.choice(hosts)["c"].append(m)             # a machine as sub-component of a probe
+                else:
+                    forest.append(m)
         if like is not None:                                     # an earlier simulation: same names, classes and keys
             forest = copy.deepcopy(like["forest"])
             rng.shuffle(forest)
-        flat = preorder(forest)
+        every = preorder(forest)
+        flat = [t for t in every if not t.get("lib")]            # nodes the generator may edit (library nodes are what they are)
         pool = POOL[:]
         rng.shuffle(pool)
         pool = pool[:rng.choice([3, 5, 8, len(pool)])]
@@ -584,11 +664,12 @@ class C20(Prop):
             plugins["opt"] = {"n": "probe_manager", "d": [[p, rng.randint(1, 9)] for p in rng.sample(["pm.k0", "pm.k1", "pm.sub.k"], rng.randint(0, 2))]}
         fault = rng.random() if like is None else 1.0
         tag = None
-        if flat and fault < 0.12 and len(flat) >= 2:            # duplicate name, distinct objects, random depth
-            a, b = rng.sample(flat, 2)
+        if flat and fault < 0.12 and len(every) >= 2:           # duplicate name, distinct objects, random depth
+            b = rng.choice(flat)
+            a = rng.choice([t for t in every if t is not b])    # possibly the name of a library component (e.g. an empty transition set)
             b["n"] = a["n"]
         elif flat and fault < 0.18:                              # the same object supplied twice (whole subtree shared)
-            a = rng.choice(flat)
+            a = rng.choice([t for t in flat if not any(x.get("lib") for x in preorder([t]))] or flat)
             host = rng.choice([None] + [t for t in flat if t is not a and not self._inside(a, t)])
             (forest if host is None else host["c"]).append(a)
         elif flat and fault < 0.26:                              # a component named like a framework manager
@@ -634,6 +715,7 @@ class C20(Prop):
             t["d"] = canon_pairs(t["d"]) if nestable(t["d"]) else t["d"][:1]
         if like is None:
             rng.shuffle(forest)                                  # supply order is random
+        flat = preorder(forest)                                  # from here on: every node, library ones included
         defaulted = [p for t in flat for p, _ in t["d"]] + [p for p, _ in (plugins["opt"] or {"d": []})["d"]]
         cand = defaulted * 2 + pool + list(MGR_PATHS)
         if like is not None:                                     # aim at what the main simulation leaves to defaults / leaves unset
@@ -667,8 +749,10 @@ class C20(Prop):
         n = len(forest)
         n_spec, spec_via = 0, None
         r = rng.random()
-        if n and r < 0.45 and not any(len({x["id"] for x in preorder([t])}) != len(preorder([t])) for t in forest):
-            n_spec = rng.randint(1, n) if rng.random() < 0.4 else rng.randint(1, max(1, n - 1))
+        n_plain = len([t for t in forest if not t.get("lib")])
+        if n_plain and r < 0.45:
+            forest.sort(key=lambda t: 1 if t.get("lib") else 0)  # (stable) a Machine cannot be a string of the specification block
+            n_spec = rng.randint(1, n_plain) if rng.random() < 0.4 else rng.randint(1, max(1, n_plain - 1))
             spec_via = rng.choice(["ms", "ms", "cdict", "clct"])
         rest = n - n_spec
         mode = rng.random()
@@ -689,11 +773,24 @@ class C20(Prop):
             left -= k
         if left == 0 and rng.random() < 0.05:
             batches.append(0)                                    # add_components([])
-        adds = [{"container": rng.choice(["list", "tuple"]), "group": rng.random() < 0.5} for _ in batches[1:]]
+        adds = [{"container": rng.choice(["list", "tuple"]), "group": rng.random() < 0.5, "holes": []} for _ in batches[1:]]
+        ctor_holes = []
+        if rng.random() < 0.12:                                  # None / [] / () among the components
+            kind = rng.choice(HOLES)
+            where = rng.choice(["sub", "sub", "add", "add", "ctor"])
+            plain = [t for t in flat if not t.get("lib")]
+            if where == "sub" and plain:
+                t = rng.choice(plain)
+                t["holes"] = [[rng.randint(0, len(t["c"])), kind]]
+            elif where == "add" and adds:
+                j = rng.randrange(len(adds))
+                adds[j]["holes"] = [[rng.randint(0, batches[j + 1]), kind]]
+            elif where == "ctor" and spec_via not in ("cdict", "clct"):
+                ctor_holes = [[rng.randint(0, batches[0]), kind]]
         need_ms = bool(ms) or spec_via == "ms" or (plugins["via"] == "ms" and bool(plugin_dict(plugins)))
         ms_kind = rng.choice(["dict", "lct", "yaml_str", "yaml_path"]) if need_ms else rng.choice([None, None, "dict", "yaml_str"])
         ov_kind = rng.choice(["dict", "lct"]) if ov else rng.choice([None, None, "dict"])
-        names_flat = [t["n"] for t in flat] + ([plugins["opt"]["n"]] if plugins["opt"] else [])
+        names_flat = [t["n"] for t in flat if not t.get("lib")] + ([plugins["opt"]["n"]] if plugins["opt"] else [])
         attempts = []
         for _ in range(rng.choice([0, 0, 1, 2, 3])):
             if names_flat:
@@ -713,7 +810,7 @@ class C20(Prop):
             keys = [p for p in cand if p not in MGR_PATHS]
             keys = keys + [".".join(p.split(".")[:k]) for p in keys for k in range(1, p.count(".") + 1)] + ["absent", "s0.nothing"]
             delete = [rng.choice(keys), rng.choice(["delattr", "delitem"])]
-        case = {"forest": forest, "n_spec": n_spec, "spec_via": spec_via, "batches": batches, "adds": adds,
+        case = {"forest": forest, "n_spec": n_spec, "spec_via": spec_via, "batches": batches, "adds": adds, "ctor_holes": ctor_holes,
                 "ms": ms, "ms_kind": ms_kind, "ov": ov, "ov_kind": ov_kind, "home": home, "plugins": plugins,
                 "probes": probes, "attempts": attempts, "pre": pre, "post": post, "post_handle": rng.choice(["sim", "stored"]),
                 "late_add": rng.random() < 0.3, "setup_twice": rng.random() < 0.3, "delete": delete, "before": []}
@@ -732,8 +829,12 @@ class C20(Prop):
         return any(x is t for x in preorder([a]))
 
     def boundary(self):
-        def N(i, n, d=(), c=(), sub="list", defs="property"):
-            return {"id": i, "n": n, "d": [list(x) for x in d], "c": list(c), "sub": sub, "defs": defs}
+        def N(i, n, d=(), c=(), sub="list", defs="property", proto="plain", holes=()):
+            return {"id": i, "n": n, "d": [list(x) for x in d], "c": list(c), "sub": sub, "defs": defs, "proto": proto,
+                    "holes": [list(h) for h in holes]}
+
+        def M(first_id, col, states, transitions):
+            return machine_tree([first_id], col, [list(x) for x in states], [list(x) for x in transitions])
 
         def case(forest, batches=None, ms=(), ov=(), attempts=(), pre=(), post=(), probes=None, late=False, twice=False,
                  ms_kind="dict", ov_kind="dict", delete=None, **kw):
@@ -875,6 +976,52 @@ class C20(Prop):
             case([], ms=[("s0", 5)], ov=[("s0.k0", 1)]),
             case([], ms=[("s0.k0", 5)], home=[("s0", 1)]),
             case([], ov=[("population", 5)]),
+            # components with a truth value / container / equality protocol of their own (seeded C20-3: `if not current`):
+            # falsy at the top level, as inner node (its truthy sub-tree must survive), as leaf; through every route; with
+            # defaults and user values; duplicates where one or both copies are falsy; two falsy ones defaulting one key
+            case([N(0, "a", [("s0.k0", 1)], proto="len0"), N(1, "b", [("s0.k1", 2)], proto="bool_false"), N(2, "c", proto="iter_len0"),
+                  N(3, "d", proto="len3_bool_false"), N(4, "e", proto="len3"), N(5, "f", proto="len0_bool_true"), N(6, "g", proto="bool_true")],
+                 ov=[("s0.k0", None)], ms=[("s0.k1", 20)]),
+            case([N(0, "a", [("s0.k0", 1)], [N(1, "b", [("s0.k1", 2)], [N(2, "c", [("s0.k2", 3)], [N(3, "d", [("s0.k3", 4)], proto="len0")])], proto="bool_false")],
+                    sub="tuple")], ov=[("s0.k2", 30)]),
+            case([N(0, "a", [], [N(1, "b", [], [N(2, "c")], proto="len0", sub="fresh", defs="class_attr")], proto="iter_len0", sub="copy")]),
+            case([N(0, "a", [("s0.k0", 1)], [N(2, "c", [("s0.k2", 3)], proto="bool_false")], proto="len0"), N(1, "b", [("s0.k1", 2)], proto="len0", defs="class_attr")],
+                 n_spec=2, spec_via="ms", ms_kind="yaml_str"),
+            case([N(0, "a", [("s0.k0", 1)], proto="bool_false"), N(1, "b", proto="len0")], n_spec=2, spec_via="cdict", batches=[0]),
+            case([N(0, "a", proto="len0"), N(1, "b", proto="bool_false"), N(2, "c", proto="iter_len0")], batches=[1, 2],
+                 adds=[{"container": "tuple", "group": True, "holes": []}]),
+            case([N(0, "a", proto="len0"), N(1, "a")]),                                           # duplicate, first copy falsy
+            case([N(0, "a"), N(1, "a", proto="bool_false")], batches=[1, 1]),                     # duplicate, second copy falsy
+            case([N(0, "a", proto="len0"), N(1, "b", [], [N(2, "a", proto="iter_len0")])]),       # both falsy, one nested
+            case([N(0, "a", proto="len0"), N(0, "a", proto="len0")]),                             # the same falsy object twice
+            case([N(0, "population_manager", proto="bool_false")]),
+            case([N(0, "a", [("s0.k0", 1)], proto="len0"), N(1, "b", [("s0.k0", 2)], proto="bool_false")]),
+            case([N(0, "a", [("s0.k0", 1)], proto="len0"), N(1, "b", [("s0.k0.deep", 2)], proto="len0")]),
+            case([N(0, "a", [("s0.k0", 1)], proto="len0")], attempts=[("a", "s0.k0", 5, "update")], delete=("s0", "delattr"), late=True, twice=True),
+            case([N(0, "a", proto="eq_always"), N(1, "b", proto="eq_always"), N(2, "c", proto="eq_never"), N(3, "d", proto="eq_name"),
+                  N(4, "e", [], [N(5, "f", proto="eq_name")], proto="eq_never")]),
+            case([N(0, "a", proto="eq_always"), N(1, "a", proto="eq_never")]),                    # same name, never equal: still a duplicate
+            case([N(0, "a", proto="eq_name"), N(1, "a", proto="eq_name")], batches=[1, 1]),
+            case([N(0, "a", proto="eq_never"), N(0, "a", proto="eq_never")]),                     # same object, not equal to itself
+            # real library components: a state machine; the transition set of a terminal state is empty, hence falsy
+            case([M(0, "m0", [("x", False), ("y", True), ("z", False)], [("x", "y"), ("y", "z"), ("x", "z")])]),
+            case([M(0, "m0", [("x", False)], [])]),
+            case([N(0, "a", [("s0.k0", 1)], [M(1, "m0", [("x", False), ("y", False)], [("x", "y")])]), N(20, "b")], batches=[1, 1], ov=[("s0.k0", 9)]),
+            case([M(0, "m0", [("x", False), ("y", False)], [("x", "y")]), M(20, "m1", [("y", False), ("z", False)], [])]),   # state.y twice
+            case([M(0, "m0", [("x", False)], []), N(20, "transition_set.x")]),                    # duplicate of an EMPTY transition set
+            case([N(20, "transition_set.x", proto="len0"), M(0, "m0", [("x", False)], [])], batches=[1, 1]),
+            case([M(0, "m0", [("x", False), ("y", False)], [("x", "y")]), M(20, "m0", [("z", False)], [])]),                 # machine.m0 twice
+            # None / [] / () among the components: decided on the unchanged code (see forced_outcomes)
+            case([N(0, "a"), N(1, "b")], ctor_holes=[(1, "none")]),
+            case([N(0, "a"), N(1, "b")], ctor_holes=[(0, "elist")]),
+            case([N(0, "a")], ctor_holes=[(1, "etuple")]),
+            case([N(0, "a"), N(1, "b")], batches=[0, 2], adds=[{"container": "list", "group": False, "holes": [[1, "none"]]}]),
+            case([N(0, "a"), N(1, "b")], batches=[1, 1], adds=[{"container": "tuple", "group": False, "holes": [[0, "none"]]}]),
+            case([N(0, "a"), N(1, "b")], batches=[0, 2], adds=[{"container": "list", "group": True, "holes": [[1, "elist"], [0, "etuple"]]}]),
+            case([N(0, "a", [], [N(1, "b"), N(2, "c")], holes=[(1, "none")])]),
+            case([N(0, "a", [], [N(1, "b"), N(2, "c")], holes=[(1, "elist"), (0, "etuple"), (4, "elist")], sub="tuple")]),
+            case([N(0, "a", [], [N(1, "b", [], [], holes=[(0, "none")])])], n_spec=1, spec_via="ms"),
+            case([N(0, "a", [], [N(1, "b", [], [], holes=[(0, "etuple")], proto="len0")], proto="bool_false")], n_spec=1, spec_via="clct", batches=[0]),
             # F18 (known finding): deletions from a component's setup – a whole section, one leaf, a user-supplied key,
             # a sub-tree, a key that does not exist (nothing to delete: not a finding)
             case([N(0, "a", [("s0.k0", 1), ("s1.k0", 2)])], delete=("s0", "delattr"), post=[("s1.k0", 5, "update")]),
@@ -900,7 +1047,7 @@ class C20(Prop):
         forest = case["forest"]
 
         def rebatch(f):
-            return dict(case, forest=f, n_spec=0, spec_via=None, batches=[len(f)], adds=[])
+            return dict(case, forest=f, n_spec=0, spec_via=None, batches=[len(f)], adds=[], ctor_holes=[])
         if case["before"]:
             yield dict(case, before=[])
             for j in range(len(case["before"])):
@@ -908,14 +1055,19 @@ class C20(Prop):
         for i in range(len(forest)):
             yield rebatch(forest[:i] + forest[i + 1:])
         for i, t in enumerate(forest):                          # hoist children / drop a child / drop a default
+            if t.get("lib"):
+                continue                                         # a library machine is built as a whole
             if t["c"]:
                 yield rebatch(forest[:i] + t["c"] + forest[i + 1:])
             for j in range(len(t["c"])):
                 yield rebatch(forest[:i] + [dict(t, c=t["c"][:j] + t["c"][j + 1:])] + forest[i + 1:])
             for j in range(len(t["d"])):
                 yield dict(case, forest=forest[:i] + [dict(t, d=t["d"][:j] + t["d"][j + 1:])] + forest[i + 1:])
-            if t.get("sub", "list") != "list" or t.get("defs", "property") != "property":
-                yield dict(case, forest=forest[:i] + [dict(t, sub="list", defs="property")] + forest[i + 1:])
+            if not t.get("lib") and (t.get("sub", "list") != "list" or t.get("defs", "property") != "property"
+                                     or t.get("proto", "plain") != "plain" or t.get("holes")):
+                yield dict(case, forest=forest[:i] + [dict(t, sub="list", defs="property", proto="plain", holes=[])] + forest[i + 1:])
+                if t.get("proto", "plain") != "plain":
+                    yield dict(case, forest=forest[:i] + [dict(t, sub="list", defs="property", holes=[])] + forest[i + 1:])
         if len(case["batches"]) > 1 or case["n_spec"]:
             yield rebatch(forest)
         if case["home"] is not None:
@@ -965,12 +1117,15 @@ class C20(Prop):
         for name, defs in model_managers(case):
             plan.append((f"mgr {name} {_enc_defs(defs, tokens=True)}", "mgr", name))
         stages = list(obs["stages"])
-        if has_gen(ctor_forest(case)):
-            return plan                                          # outside the signature: nothing to compare beyond the refusal
+        forced = forced_outcomes(case)
+        if forced[0] is not None:
+            plan.append((None, "forced", [forced[0], stages[0]]))
+            return plan
         plan.append((f"add {_enc_forest(ctor_forest(case))}", "add", stages[0]))
         pos = case["n_spec"] + case["batches"][0]
-        for k, st in zip(case["batches"][1:], stages[1:]):
-            if has_gen(case["forest"][pos:pos + k]):
+        for i, (k, st) in enumerate(zip(case["batches"][1:], stages[1:])):
+            if forced[i + 1] is not None:
+                plan.append((None, "forced", [forced[i + 1], st]))
                 return plan
             plan.append((f"add {_enc_forest(case['forest'][pos:pos + k])}", "add", st))
             pos += k
@@ -996,7 +1151,7 @@ class C20(Prop):
         return plan
 
     def model_lines(self, case, obs):
-        return [l for l, _, _ in self._plan(case, obs)]
+        return [l for l, _, _ in self._plan(case, obs) if l is not None]
 
     @staticmethod
     def _outcome(reply):
@@ -1008,9 +1163,16 @@ class C20(Prop):
         case = fill(case)
         plan = self._plan(case, obs)
         ctor = obs["stages"][0]["outcome"] if obs["stages"] else None
-        if len(plan) != len(replies):
+        if len([1 for l, _, _ in plan if l is not None]) != len(replies):
             return [f"{len(plan)} operations, {len(replies)} replies"]
-        for k, ((line, kind, pay), r) in enumerate(zip(plan, replies)):
+        it = iter(replies)
+        for k, (line, kind, pay) in enumerate(plan):
+            if kind == "forced":                                 # specified by the harness (see forced_outcomes), no model line
+                want, st = pay
+                if st["outcome"] != want:
+                    dis.append(f"#{k} {st['op']}: a placeholder / generator among the components must give {want}, implementation: {st['outcome']}")
+                break
+            r = next(it)
             mo = self._outcome(r)
             t = r.split()
             if kind in ("user", "mgr"):
@@ -1088,6 +1250,7 @@ class C20(Prop):
             or len(set(mgr_paths)) != len(mgr_paths),
             "conflict_default": any(strict_conflict(a, b) for a in comp_paths + mgr_paths for b in comp_paths),
             "gen": has_gen(case["forest"]),
+            "forced": any(x is not None for x in forced_outcomes(case)),
         }
         user_paths = [p for p, _ in case["ms"]] + [p for p, _ in case["ov"]] + [p for p, _ in (case["home"] or [])]
         # a user value at another depth than anything else: the user's input is malformed, refusing it is legitimate
@@ -1096,7 +1259,7 @@ class C20(Prop):
                    ["population", "randomness", "time", "interpolation", "stratification", "input_data",
                     "time.start", "time.end", "randomness.key_columns"])
         F["must_reject"] = F["dup_name"] or F["mgr_clash"] or F["mgr_dup"] or F["dup_default"] or F["conflict_default"]
-        F["may_reject"] = F["conflict_user"] or F["gen"]
+        F["may_reject"] = F["conflict_user"] or F["gen"] or F["forced"]
         return F
 
     def oracle(self, case, obs):
@@ -1107,7 +1270,7 @@ class C20(Prop):
         outcomes = [s["outcome"] for s in obs["stages"]] + ([obs["setup"]["outcome"]] if obs["setup"] else [])
         completed = obs["setup"] is not None and obs["setup"]["outcome"] == "ok"
         allowed = {"ok", "dupname", "dupvalue"} | ({"structure"} if (F["conflict_default"] or F["conflict_user"]) else set()) \
-            | ({"cfgerr"} if F["conflict_user"] else set()) | ({"other:TypeError"} if F["gen"] else set())
+            | ({"cfgerr"} if F["conflict_user"] else set()) | ({"other:TypeError", "other:AttributeError"} if (F["gen"] or F["forced"]) else set())
         for o in outcomes:
             if o not in allowed:
                 f.append({"sig": "unexpected-exception", "msg": f"stage outcomes {outcomes}"})
@@ -1244,9 +1407,29 @@ class C20(Prop):
             t.append("optional-manager:" + case["plugins"].get("via", "arg") + "-" + case["plugins"].get("arg_kind", "dict"))
         if plugin_dict(case["plugins"]):
             t.append("plugins-via:" + case["plugins"].get("via", "arg"))
+        top = {id(x) for x in case["forest"]}
         for x in flat:
+            if x.get("lib"):
+                t.append("library:" + x["lib"][0] + ("(empty: falsy)" if falsy(x) else ""))
+                continue
             t.append("sub_components:" + x.get("sub", "list") + ("" if x["c"] else "(empty)"))
             t.append("defaults-declared:" + (x.get("defs", "property") if x["d"] else "none"))
+            t.append("protocol:" + x.get("proto", "plain"))
+            for _, kind in x.get("holes") or []:
+                t.append("placeholder:" + kind + "@sub_components")
+        for x in flat:
+            if falsy(x):
+                t.append("falsy-component:" + ("top-level" if id(x) in top else "leaf" if not x["c"] else "inner")
+                         + ("+defaults" if x["d"] else ""))
+        if F["dup_name"]:
+            dup = {n for n in F["names"] if F["names"].count(n) > 1}
+            k = [falsy(x) for x in flat if x["n"] in dup]
+            t.append("fault:duplicate-name:" + ("all-copies-falsy" if all(k) else "one-copy-falsy" if any(k) else "truthy"))
+        for _, kind in case["ctor_holes"]:
+            t.append("placeholder:" + kind + "@components=")
+        for a in case["adds"]:
+            for _, kind in a.get("holes") or []:
+                t.append("placeholder:" + kind + "@add_components")
         for s in obs["stages"]:
             t.append(f"{s['op']}:{s['outcome']}")
         if obs["setup"]:
@@ -1343,7 +1526,8 @@ class C20(Prop):
                 "values": obs["values"]}
 
     def _show(self, t):
-        return {t["n"]: [dict((p, repr(v)) for p, v in t["d"]), t.get("sub"), t.get("defs"), [self._show(c) for c in t["c"]]]}
+        return {t["n"]: [dict((p, repr(v)) for p, v in t["d"]), t.get("lib") or [t.get("sub"), t.get("defs"), t.get("proto")],
+                         [self._show(c) for c in t["c"]]]}
 
 
 PROP = C20()
